@@ -642,7 +642,7 @@ func class(tok string) string {
 func (e *env) judge(op Op, o outcome, where string) {
 	rep.Count("connects", 1)
 	wellformed := !((op.Shape == "v31" || op.Shape == "v311") && op.Pf && !op.Uf)
-	if op.Res == "reject" && wellformed && !strings.HasPrefix(op.Pa, "nul") {
+	if op.Res == "reject" && wellformed {
 		rep.Count("reject_owed_connack", 1)
 	}
 	shape := fmt.Sprintf("%s:%s:user=%s:pass=%s:algo=%s", op.Shape, flagsName(op), class(op.Ua), op.Pa, meta.Algo)
@@ -661,7 +661,11 @@ func (e *env) judge(op Op, o outcome, where string) {
 				fmt.Sprintf("probe CONNECT %s/%s accepted, the specification's accounts are %v", op.Ua, op.Pa, e.acc), o)
 		} else if op.Res == "reject" {
 			e.resultDiverged = true
-			e.div(fmt.Sprintf("c19:ACCEPTED-without-valid-credentials:%s:user=%s:pass=%s:algo=%s:pack=%s", flagsName(op), class(op.Ua), op.Pa, meta.Algo, meta.Pack),
+			long := ""
+			if sp, ok := accMap(e.acc)[op.Ua]; ok && len(pw(sp)) >= 72 {
+				long = ":stored-password-72-bytes-or-more"
+			}
+			e.div(fmt.Sprintf("c19:ACCEPTED-without-valid-credentials:%s:user=%s:pass=%s:algo=%s%s", flagsName(op), class(op.Ua), op.Pa, meta.Algo, long),
 				fmt.Sprintf("CONNECT accepted although the specification demands reject: %s user=%q password=%q accounts=%v", shape, trunc(name(op.Ua)), trunc(pw(op.Pa)), e.acc), o)
 		} else if op.Res == "any" {
 			rep.Count("dontcare_absent_password_vs_stored_empty:accepted", 1)
@@ -703,16 +707,13 @@ func (e *env) judge(op Op, o outcome, where string) {
 		switch {
 		case !wellformed:
 			rep.Count("noconnack:v3-password-flag-without-username-flag(allowed)", 1)
-		case strings.HasPrefix(op.Pa, "nul") && op.Pf:
-			rep.Count("noconnack:password-with-NUL", 1)
-			e.div("c19:no-connack:password-containing-NUL-treated-as-malformed",
-				"CONNECT whose password (binary data) ends in a NUL byte is dropped without CONNACK ("+shape+")", o)
 		case o.WExit:
 			rep.Count("failing_connack_lost", 1)
 			e.div("c19:failing-connack-lost",
 				"rejected CONNECT got no CONNACK: the connection's writer exited without writing it ("+shape+"): "+o.Detail, o)
 		case o.Closed:
-			e.div("c19:connection-closed-without-connack:"+op.Shape+":"+flagsName(op)+":user="+class(op.Ua)+":pass="+op.Pa,
+			// (a broker that reads the password as a UTF-8 string drops passwords with a NUL byte this way)
+			e.div("c19:connection-closed-without-connack:"+flagsName(op)+":user="+class(op.Ua)+":pass="+op.Pa,
 				"well-formed CONNECT that must be rejected: connection closed without CONNACK ("+shape+"): "+o.Detail, o)
 		default:
 			e.div("c19:connect-unanswered-for-20s", "CONNECT neither answered nor closed ("+shape+")", o)
